@@ -67,6 +67,8 @@ def gen_pexpr(rng, dq, nested):
     p = gen_param(rng, dq)
     if r < 0.70 or not nested:
         return ("p", p, rng.random() < 0.4)
+    if p[0] == "c":
+        p = ("n", "x")          # ${#-w} ${#+w} ${##} read as operations on other parameters
     if r < 0.83:
         return ("d", rng.random() < 0.6, p, rng.choice(SUBWORDS))
     if r < 0.95:
@@ -210,8 +212,8 @@ def classify(c, cr, ref):
     if ifs == "" and any(p[0] == "P" and p[1][0] in ("p", "d", "a") and
                          (p[1][1] if p[1][0] == "p" else p[1][2])[0] in ("*", "S") for p in flatp):
         return "KF-C05-star-empty-ifs"
-    if getattr(c, "coq_known", False):
-        return "KF-C05-dq-at-null"          # known_at_null of Expand/SpecProofs.v, computed by the runner
+    if py_known_at_null(c):
+        return "KF-C05-dq-at-null"          # = known_at_null of Expand/SpecProofs.v (cross-checked in run())
     for p in c.word:
         if p[0] == "D":
             for q in p[1]:
@@ -234,6 +236,71 @@ def classify(c, cr, ref):
         if "$@" in wtext or "$*" in wtext or "[@]" in wtext:
             return "KF-C05-list-in-default-word"
     return None
+
+
+def py_known_at_null(c):
+    """the driver's copy of Gallina known_at_null (Expand/SpecProofs.v): some top-level double-quoted string
+    holds a zero-element plain [@] expansion, and its other pieces leave nothing but quoted-null marks
+    (at least one).  None-returning helper pieces (operator forms) make the string not-known here."""
+    def marks_only(q):
+        """-> number of marks if the piece leaves only marks, else None"""
+        k = q[0]
+        if k == "T":
+            return 1 if q[1] == "" else None
+        if k == "Q":
+            return 1 if q[1] == "" else None
+        if k == "C":
+            return 1 if X.ansic_decode(q[1]) == "" else None
+        if k in ("~", "E", "A"):
+            return None
+        if k == "X":
+            out = c.cmd_out.get(q[1], "").replace("\0", "").rstrip("\n")
+            return 1 if out == "" else None
+        if k == "P" and q[1][0] == "p":
+            par = q[1][1]
+            if par[0] in ("@", "R"):
+                el = param_elems(c, par)
+                if not el:
+                    return 0
+                return 1 if (len(el) == 1 and el[0] == "") else None
+            if par[0] in ("*", "S"):
+                el = param_elems(c, par)
+                joiner = " " if c.ifs is None else c.ifs[:1]
+                return 1 if joiner.join(el) == "" else None
+            v = scalar_val(c, par)
+            return 1 if (v is None or v == "") else None
+        if k == "P" and q[1][0] in ("d", "a"):
+            # operator forms (outside the theorem's fragment): null result for the simple sub-words
+            colon, par, w = q[1][1], q[1][2], q[1][3]
+            if par[0] in ("@", "R", "*", "S"):
+                el = param_elems(c, par)
+                is_set, nonnull = bool(el), any(x != "" for x in el)
+            else:
+                v = scalar_val(c, par)
+                is_set, nonnull = v is not None, bool(v)
+            uses = nonnull if colon else is_set
+            if (q[1][0] == "d") == uses:
+                # the parameter itself (for d) / nothing (for a with an unused alternative)
+                if q[1][0] == "a":
+                    return 1
+                return marks_only(("P", ("p", par)))
+            subs = {"": "", '""': "", "''": "", "$e": "", '"$e"': ""}
+            for nm in ("x", "y"):
+                val = scalar_val(c, ("n", nm))
+                subs["$" + nm] = val
+                subs['"$' + nm + '"'] = val
+            return 1 if subs.get(w, "?") == "" else None
+        return None
+    for p in c.word:
+        if p[0] != "D" or not p[1]:
+            continue
+        zero = any(q[0] == "P" and q[1][0] == "p" and q[1][1][0] in ("@", "R") and not param_elems(c, q[1][1]) for q in p[1])
+        if not zero:
+            continue
+        ms = [marks_only(q) for q in p[1]]
+        if all(m is not None for m in ms) and sum(ms) >= 1:
+            return True
+    return False
 
 
 MODEL_CTX = ("arg", "arrelem")
@@ -290,7 +357,10 @@ def evaluate(ctx, cases, bash_all=False, bash_sample=1500):
         kn = ctx.model("xpknown", [mfields[i] for i in differ])
         for i, l in zip(differ, kn):
             f = core.dec_line(l)
-            cases[i].coq_known = bool(f) and f[0] == "1"
+            coq_known = bool(f) and f[0] == "1"
+            in_frag = len(f) > 1 and f[1] == "1"
+            if in_frag and coq_known != py_known_at_null(cases[i]):
+                raise core.CheckBroken("the driver's known_at_null differs from the Gallina definition on %r" % (describe(cases[i]),))
     for i, b in zip(idxs, bres):
         c = cases[i]
         cr, sr = code[i], X.decode_result(spec[i])
